@@ -1,6 +1,6 @@
 (* Dispatch.v — single entry point used by the OCaml runner and by the in-Coq
    cross-check: component name + input value -> observation value. *)
-From XV Require Import Base Options Worker Sched System.
+From XV Require Import Base Options Worker Ctl Sched System.
 
 Definition dispatch (name : string) (input : sx) : sx :=
   if String.eqb name "options" then run_options input
@@ -13,6 +13,14 @@ Definition dispatch (name : string) (input : sx) : sx :=
   else if String.eqb name "sched" then run_sched input
   else if String.eqb name "split" then run_split input
   else if String.eqb name "system" then run_system input
+  else if String.eqb name "coll_eq" then
+    match input with
+    | SL [a; b] => match un_strs a, un_strs b with
+                   | Some a', Some b' => sx_bool (Ctl.coll_eqb a' b')
+                   | _, _ => bad_input
+                   end
+    | _ => bad_input
+    end
   else SL [SS "unknown-component"].
 
 (* used by generated cases_*.v files: indices of cases whose model output
